@@ -53,9 +53,40 @@ func (r *Run) threadClasses() []threadClass {
 					return true
 				}
 				if lit, ok := ast.Unparen(gs.Call.Fun).(*ast.FuncLit); ok {
-					if lf := r.P.Lits[lit]; lf != nil {
-						addRoot("go:"+lf.Name, lf)
+					lf := r.P.Lits[lit]
+					if lf == nil {
+						return true
 					}
+					// a goroutine-starting helper — go func(){ …; p(…) }() where p is a function-typed
+					// parameter of the enclosing glue function: one goroutine class per function value
+					// handed in at a call site, not one for all of them
+					if pidx := r.spawnedParam(holder, lit); pidx >= 0 && holder.Obj != nil && r.P.isGlue(holder.Obj) {
+						split := false
+						for _, c := range r.callersOf(holder.Obj) {
+							ast.Inspect(c.Body, func(m ast.Node) bool {
+								call, ok := m.(*ast.CallExpr)
+								if !ok || calleeObj(c.Info(), call) != holder.Obj || pidx >= len(call.Args) {
+									return true
+								}
+								if tgt := funcValueTarget(c.Info(), ast.Unparen(call.Args[pidx])); tgt != nil {
+									if tf := r.P.Funcs[tgt]; tf != nil && !seen[tf] {
+										seen[tf] = true
+										reach := r.reachableFrom(tf)
+										for f := range r.reachableFromSkipping(lf, holder, pidx) {
+											reach[f] = true
+										}
+										out = append(out, threadClass{Name: "go:" + holder.Name + "(" + tf.Name + ")", Root: tf, Reach: reach})
+										split = true
+									}
+								}
+								return true
+							})
+						}
+						if split {
+							return true
+						}
+					}
+					addRoot("go:"+lf.Name, lf)
 					return true
 				}
 				known, _ := d.Callees(r.P, gs.Call)
@@ -271,7 +302,6 @@ func uniq(s []string) []string {
 // the field, and on every path it comes before each of those go statements.
 func (r *Run) writePrecedesSpawns(w fieldAccess, classes []threadClass, all []fieldAccess) bool {
 	fn := w.Fn.root().origOrSelf()
-	d := r.Deep()
 	touches := func(c threadClass) bool {
 		for _, a := range all {
 			if c.Reach[a.In.origOrSelf()] || c.Reach[a.Fn.root().origOrSelf()] {
@@ -289,18 +319,10 @@ func (r *Run) writePrecedesSpawns(w fieldAccess, classes []threadClass, all []fi
 			}
 		}
 		for i, ev := range path.Events {
-			if ev.Kind != EvGo || ev.Depth != 0 {
-				continue
+			if ev.Kind != EvGo {
+				continue // (a go statement inside looked-into glue — a goroutine-starting helper — counts like one in the function itself)
 			}
-			var targets []*Func
-			if ev.Lit != nil {
-				if lf := r.P.Lits[ev.Lit]; lf != nil {
-					targets = append(targets, lf)
-				}
-			} else if ev.Call != nil && d != nil {
-				k, _ := d.Callees(r.P, ev.Call)
-				targets = append(targets, k...)
-			}
+			targets := r.goTargets(ev)
 			for _, c := range classes {
 				for _, t := range targets {
 					if c.Root == t && touches(c) {
@@ -314,4 +336,85 @@ func (r *Run) writePrecedesSpawns(w fieldAccess, classes []threadClass, all []fi
 		}
 	}
 	return sawGo
+}
+
+// spawnedParam: the literal started by a go statement in holder calls a function-typed parameter of
+// holder; returns that parameter's index, or -1.
+func (r *Run) spawnedParam(holder *Func, lit *ast.FuncLit) int {
+	idx := -1
+	ast.Inspect(lit.Body, func(n ast.Node) bool {
+		call, ok := n.(*ast.CallExpr)
+		if !ok {
+			return true
+		}
+		if id, ok := ast.Unparen(call.Fun).(*ast.Ident); ok {
+			if v, ok := holder.Info().Uses[id].(*types.Var); ok {
+				if _, isSig := v.Type().Underlying().(*types.Signature); isSig {
+					if k := paramIndex(holder, v); k >= 0 {
+						idx = k
+					}
+				}
+			}
+		}
+		return true
+	})
+	return idx
+}
+
+// reachableFromSkipping: like reachableFrom(lf), but calls through the pidx-th parameter of holder
+// are not followed (they are resolved per call site of holder instead).
+func (r *Run) reachableFromSkipping(lf, holder *Func, pidx int) map[*Func]bool {
+	d := r.Deep()
+	out := map[*Func]bool{lf: true}
+	if d == nil || lf.Body == nil {
+		return out
+	}
+	ast.Inspect(lf.Body, func(n ast.Node) bool {
+		switch v := n.(type) {
+		case *ast.GoStmt:
+			return false
+		case *ast.CallExpr:
+			if id, ok := ast.Unparen(v.Fun).(*ast.Ident); ok {
+				if pv, ok := holder.Info().Uses[id].(*types.Var); ok && paramIndex(holder, pv) == pidx {
+					return true
+				}
+			}
+			known, _ := d.Callees(r.P, v)
+			for _, g := range known {
+				for f := range r.reachableFrom(g) {
+					out[f] = true
+				}
+			}
+		}
+		return true
+	})
+	return out
+}
+
+// goTargets: the functions a go event starts, as thread-class roots: the literal or the resolved
+// callees, and — for a literal inside a looked-into goroutine-starting helper — the function value
+// bound to the parameter the literal calls.
+func (r *Run) goTargets(ev Event) []*Func {
+	var targets []*Func
+	d := r.Deep()
+	if ev.Lit != nil {
+		if lf := r.P.Lits[ev.Lit]; lf != nil {
+			targets = append(targets, lf)
+		}
+		if ev.Fn != nil {
+			inst := ev.Fn
+			holder := inst.origOrSelf()
+			if pidx := r.spawnedParam(holder, ev.Lit); pidx >= 0 && inst.bind != nil && inst.bind.call != nil && pidx < len(inst.bind.call.Args) {
+				if tgt := funcValueTarget(inst.bind.caller.Info(), ast.Unparen(inst.bind.call.Args[pidx])); tgt != nil {
+					if tf := r.P.Funcs[tgt]; tf != nil {
+						targets = append(targets, tf)
+					}
+				}
+			}
+		}
+	} else if ev.Call != nil && d != nil {
+		k, _ := d.Callees(r.P, ev.Call)
+		targets = append(targets, k...)
+	}
+	return targets
 }
